@@ -242,6 +242,7 @@ func DrawCfg(r *rng.R, mode, faults string) GenCfg {
 		w["FindAll"] = 30
 	case "twin":
 		w["FindAll"] = 30
+		w["DropCollection"] = 2
 		w["CreateIndex"] = 8
 		w["DropIndex"] = 3
 		w["Derived"] = 4
@@ -883,7 +884,21 @@ func (g *Gen) make(k string, m *model.DB) Op {
 				}
 			}
 		}
-		return Op{K: k, Q: q, Upd: g.updMapFor(mc, true), UpdStyle: updStyles[g.R.Intn(len(updStyles))]}
+		op := Op{K: k, Q: q, Upd: g.updMapFor(mc, true), UpdStyle: updStyles[g.R.Intn(len(updStyles))]}
+		if mc != nil && len(mc.Indexes) > 0 && g.R.Chance(0.3) {
+			// right behind it, a bulk operation which walks an index the first one had
+			// to maintain: every document once, whatever the first one did to the entries
+			fs := mc.IndexFields()
+			f := fs[g.R.Intn(len(fs))]
+			for _, cand := range fs {
+				if _, touched := op.Upd[cand]; touched && g.R.Chance(0.7) {
+					f = cand
+				}
+			}
+			fq := &model.Query{Coll: coll, SortCalls: true, Sort: []model.SortOpt{{Field: f, Dir: dirs[g.R.Intn(len(dirs))]}}}
+			g.queue = append(g.queue, Op{K: "UpdateFunc", Q: fq, Upd: map[string]val.V{"tag": val.Wrap(g.nextTag())}, UpdStyle: updStyles[g.R.Intn(len(updStyles))]})
+		}
+		return op
 	case "Delete":
 		pWin := 0.3
 		if cfg.Determ {
